@@ -1,7 +1,7 @@
 (* C14: the statements about [step_f] (one request of the bus with failing
    allocations), assembled from the generic machine facts and the per-handler
    safety lemmas; the invariant of reachable states. *)
-From DV Require Import Spec.OomSpec Proofs.OomGeneric Proofs.OomLists Proofs.OomHandlers.
+From DV Require Import Spec.OomSpec Proofs.OomGeneric Proofs.OomLists Proofs.OomInv Proofs.OomHandlers.
 Local Open Scope N_scope.
 
 Lemma find_conn_id cs c cn : find_conn cs c = Some cn -> c_id cn = c.
@@ -109,133 +109,7 @@ Proof.
     apply run_request_outputs.
 Qed.
 
-(* ---- the invariant is kept by every unfailed request ------------------------------------------------- *)
-Lemma Forall_set_queue (P : key * queue -> Prop) ss k q :
-  (forall k', P (k', q)) -> Forall P ss -> Forall P (set_queue ss k q).
-Proof.
-  intros Hq. induction 1 as [|[k' q'] r Hx Hr IH]; simpl; [constructor|].
-  destruct (key_eqb k k'); constructor; auto.
-Qed.
-
-Lemma Forall_del_service (P : key * queue -> Prop) ss k : Forall P ss -> Forall P (del_service ss k).
-Proof.
-  induction 1 as [|[k' q'] r Hx Hr IH]; simpl; [constructor|].
-  destruct (key_eqb k k'); [assumption|constructor; auto].
-Qed.
-
-Definition gq (kq : key * queue) : Prop := good_queue (snd kq).
-
-Lemma Forall_put_queue ss k q :
-  (q = [] \/ good_queue q) -> Forall gq ss -> Forall gq (put_queue ss k q).
-Proof.
-  intros Hq Hss. unfold put_queue. destruct q as [|o r].
-  - apply Forall_del_service; exact Hss.
-  - apply Forall_set_queue; [|exact Hss]. intros k'. unfold gq; simpl. destruct Hq as [Hq|Hq]; [discriminate|exact Hq].
-Qed.
-
-Lemma forallb_remove_first {A} (p f : A -> bool) l : forallb f l = true -> forallb f (remove_first p l) = true.
-Proof.
-  induction l as [|x r IH]; simpl; auto. rewrite andb_true_iff. intros [H1 H2].
-  destruct (p x); [exact H2|]. simpl. rewrite H1, IH; auto.
-Qed.
-
-Lemma forallb_refresh_first q c flags : forallb o_live q = true -> forallb o_live (refresh_first q c flags) = true.
-Proof.
-  induction q as [|x r IH]; simpl; auto. rewrite andb_true_iff. intros [H1 H2].
-  destruct (o_conn x =? c); simpl; [rewrite H1, H2|rewrite H1, IH]; auto.
-Qed.
-
-Lemma find_owner_live q c o : forallb o_live q = true -> find_owner q c = Some o -> o_live o = true.
-Proof.
-  induction q as [|x r IH]; simpl; [discriminate|]. rewrite andb_true_iff. intros [H1 H2].
-  destruct (o_conn x =? c); [intros H; inversion H; subst; exact H1|auto].
-Qed.
-
-Lemma do_action_inv a b b' hs : inv b -> do_action a b = Some (b', hs) -> inv b'.
-Proof.
-  unfold inv. intros Hinv. fold gq in *.
-  assert (Hl : forall k q, lookup (b_services b) k = Some q -> good_queue q) by (intros k q; apply (inv_lookup b k q Hinv)).
-  destruct a as [c|k c flags|k c flags|k c flags|k flags|k c|k|k|c r|c r|p|p]; simpl.
-  - intros H; inversion H; subst; exact Hinv.
-  - destruct (lookup (b_services b) k); [discriminate|]. intros H; inversion H; subst; simpl.
-    apply Forall_app; split; [exact Hinv|]. constructor; [|constructor]. unfold gq; simpl. split; [discriminate|reflexivity].
-  - destruct (lookup (b_services b) k) as [[|h t]|] eqn:El; try discriminate.
-    destruct (find_owner (h :: t) c); [discriminate|]. intros H; inversion H; subst; simpl.
-    destruct (Hl _ _ El) as [_ Hlive]. simpl in Hlive. apply andb_true_iff in Hlive. destruct Hlive as [Hh Ht].
-    apply Forall_set_queue; [|exact Hinv]. intros k'. unfold gq; simpl.
-    destruct (has_flag flags DBUS_NAME_FLAG_REPLACE_EXISTING).
-    + split; [discriminate|]. simpl. rewrite Hh, Ht. reflexivity.
-    + split; [discriminate|]. simpl. rewrite Hh. simpl. rewrite forallb_app. rewrite Ht. reflexivity.
-  - destruct (lookup (b_services b) k) as [q|] eqn:El; [|discriminate].
-    destruct (find_owner q c) as [o|] eqn:Ef; [|discriminate].
-    destruct (Hl _ _ El) as [Hne Hlive].
-    destruct (has_flag flags DBUS_NAME_FLAG_REPLACE_EXISTING).
-    + destruct (remove_first (is_conn c) q) as [|h t] eqn:Er; [discriminate|]. intros H; inversion H; subst; simpl.
-      apply Forall_set_queue; [|exact Hinv]. intros k'. unfold gq; simpl. split; [discriminate|].
-      pose proof (forallb_remove_first (is_conn c) o_live q Hlive) as Hrf. rewrite Er in Hrf. simpl in Hrf.
-      apply andb_true_iff in Hrf. destruct Hrf as [Hh Ht]. simpl. rewrite Hh, Ht, (find_owner_live _ _ _ Hlive Ef). reflexivity.
-    + intros H; inversion H; subst; simpl. apply Forall_set_queue; [|exact Hinv]. intros k'. unfold gq; simpl. split.
-      * destruct q; [congruence|]. simpl. destruct (o_conn o0 =? c); discriminate.
-      * apply forallb_refresh_first; exact Hlive.
-  - destruct (lookup (b_services b) k) as [[|p w]|] eqn:El; try discriminate. intros H; inversion H; subst; simpl.
-    destruct (Hl _ _ El) as [_ Hlive]. simpl in Hlive.
-    apply Forall_set_queue; [|exact Hinv]. intros k'. unfold gq; simpl. split; [discriminate|exact Hlive].
-  - destruct (lookup (b_services b) k) as [q|] eqn:El; [|discriminate].
-    destruct (find_owner q c); [|discriminate]. intros H; inversion H; subst; simpl.
-    destruct (Hl _ _ El) as [_ Hlive].
-    apply Forall_put_queue; [|exact Hinv].
-    destruct (remove_first (is_conn c) q) eqn:Er; [left; reflexivity|right]. split; [discriminate|].
-    rewrite <- Er. apply forallb_remove_first; exact Hlive.
-  - destruct (lookup (b_services b) k) as [[|p rest]|] eqn:El; try discriminate. intros H; inversion H; subst; simpl.
-    destruct (Hl _ _ El) as [_ Hlive]. simpl in Hlive. apply andb_true_iff in Hlive. destruct Hlive as [_ Hr].
-    apply Forall_put_queue; [|exact Hinv]. destruct rest; [left; reflexivity|right; split; [discriminate|exact Hr]].
-  - destruct (lookup (b_services b) k) as [[|p [|n rest]]|] eqn:El; try discriminate. intros H; inversion H; subst; simpl.
-    destruct (Hl _ _ El) as [_ Hlive]. simpl in Hlive.
-    apply Forall_set_queue; [|exact Hinv]. intros k'. unfold gq; simpl. split; [discriminate|].
-    apply andb_true_iff in Hlive. destruct Hlive as [Hp Hr]. apply andb_true_iff in Hr. destruct Hr as [Hn Hr].
-    simpl. rewrite Hp, Hn, Hr. reflexivity.
-  - intros H; inversion H; subst; exact Hinv.
-  - destruct (find_conn (b_conns b) c) as [cn|]; [|discriminate].
-    destruct (existsb (N.eqb r) (c_rules cn)); [|discriminate]. intros H; inversion H; subst; exact Hinv.
-  - intros H; inversion H; subst; exact Hinv.
-  - destruct (existsb (pend_eqb p) (b_pending b)); [|discriminate]. intros H; inversion H; subst; exact Hinv.
-Qed.
-
-Lemma interp_inv A (p : prog A) F : forall s, inv (s_bus s) ->
-  match interp F p s with
-  | Ok _ s' | Oom s' | Err _ s' => inv (s_bus s')
-  | Halt => True
-  end.
-Proof.
-  induction p as [a|e| |k IH|o k IH|k IH|a k IH]; intros s Hinv; simpl.
-  - exact Hinv.
-  - exact Hinv.
-  - exact I.
-  - destruct (F (s_i s)); [exact Hinv|]. apply IH; exact Hinv.
-  - destruct (any_fail F (s_i s) (stage_cost (s_msgs s) o)); [exact Hinv|]. apply IH; exact Hinv.
-  - apply IH; exact Hinv.
-  - destruct (do_action a (s_bus s)) as [[b' hs]|] eqn:Ed; [|exact I].
-    apply IH. simpl. eapply do_action_inv; eauto.
-Qed.
-
-Lemma free_all_inv hs b : inv b -> inv (free_all hs b).
-Proof.
-  revert b; induction hs as [|h r IH]; intros b Hinv; simpl; [exact Hinv|].
-  apply IH. destruct h; simpl; auto.
-Qed.
-
-Lemma interp_nofail_no_oom A (p : prog A) : forall s s', interp no_fail p s <> Oom s'.
-Proof.
-  induction p as [a|e| |k IH|o k IH|k IH|a k IH]; intros s s'; simpl.
-  - discriminate.
-  - discriminate.
-  - discriminate.
-  - apply IH.
-  - rewrite any_fail_none. apply IH.
-  - apply IH.
-  - destruct (do_action a (s_bus s)) as [[b' hs]|]; [apply IH|discriminate].
-Qed.
-
+(* ---- the invariant is kept by every unfailed request (Proofs.OomInv) ------------------------------- *)
 Lemma run_request_inv c p b b' o : inv b -> run_request no_fail c p b = OOk b' o -> inv b'.
 Proof.
   intros Hinv. unfold run_request.
